@@ -72,6 +72,15 @@ def run(report, db, tier):
     borrow(report, 'R11.1v', "the id echoed by the keep-alive / teleport arms survives the VarInt codec: what read returns, send accepts (C03's rules)",
            lambda rid, c: c.startswith(('read:', 'varlong:', 'send:negative')),
            lambda sub: c03.run(sub, db, tier))
+    # "under every supported protocol version": the layouts and ids of the
+    # packets handled here are chosen by version guards; those follow the
+    # order of publication only if no protocol number is ordered numerically
+    R9 = report.rule('R11.9', 'version guards follow the order of '
+                     'publication: no protocol number is ordered '
+                     'numerically (snapshot numbers are above every '
+                     'release number)')
+    nf = shared.numeric_version_order(report, R9, db, P)
+    report.floor('functions scanned for numeric version order', nf, 300)
     # "without disturbing later ones": a frame takes exactly its own bytes
     from .c01 import isolation
     isolation(report, db, cg, S, M, rule_id='R11.3i')
